@@ -3,6 +3,7 @@ from vlib.tok import f64, s as S, lst
 ID = 'C13'
 FLAVOUR = {'quick': 'plain', 'thorough': 'asan'}
 LEAN_MODULES = ['NixModel.Props.C13', 'NixModel.Props.C13UnitChecks', 'NixModel.Gen.UnitChecks']
+TECHNIQUE = 'Lean 4 proof (refinement) over a hand-written model + a table translated from the source on every run (unit predicates of the entry points) + differential correspondence (trace validation) with the built library'
 THEOREMS = ['Nix.UnitChecks.entry_points_of_one_unit_agree', 'Nix.UnitChecks.unit_setting_entry_points_check', 'Nix.C13.step_refines', 'Nix.C13.rel_observe', 'Nix.C13.run_invariant',
             'Nix.C13.dims_gapfree_invariant', 'Nix.C13.createGroup_keeps_gapfree', 'Nix.C13.getDimension_defined_iff', 'Nix.C13.dimensions_indices',
             'Nix.C13.append_gets_next_index',
